@@ -4,6 +4,7 @@ import (
 	"bytes"
 	"fmt"
 	"io"
+	"sort"
 	"strings"
 	"testing"
 
@@ -53,6 +54,108 @@ type c39Case struct {
 	MaxBuf int   `json:"max_buf,omitempty"` // maxbuf part only
 	Long   int   `json:"long_at,omitempty"` // maxbuf-long part: position (1-based) of the long filler, 0 none
 	Filler int   `json:"filler,omitempty"`  // maxbuf-long part: which filler
+	// maxbuf-states part: the input itself (ASCII and NUL only), fragment
+	// context and AllowCDATA.
+	In    string `json:"input,omitempty"`
+	Ctx   string `json:"ctx,omitempty"`
+	CDATA bool   `json:"cdata,omitempty"`
+}
+
+// The maxbuf-states family: documents that drive the tokenizer into each of
+// its sub-states that read ahead within one token, so that SetMaxBuf(n) can be
+// swept over EVERY n and the limit falls on every byte of every look-ahead.
+//
+// Raw-text documents are opener + body + end-tag candidate + tail, where
+//   - opener is "<E>" for each raw-text / RCDATA element E (or "" under the
+//     fragment context E for title/textarea, which start in the RCDATA state);
+//   - body (script only; other elements get the plain ones) walks the script
+//     data states: escape start, escaped (+dash, +dash dash), double escape
+//     start (complete, wrong letter, cut), double escaped (+dash, +dash dash),
+//     double escape end back to escaped;
+//   - the end-tag candidate is "<", "<x", "</", "</" + a prefix of E, that
+//     prefix followed by a wrong letter, the full name followed by each class
+//     of terminator (">", " >", "/>", a letter), in lower and upper case;
+//   - the tail is empty or "AA</E>t".
+//
+// Markup documents cover comments (all dash / "--!" endings), CDATA (with
+// AllowCDATA on and off), DOCTYPE, bogus comments, tags and the attribute
+// states. Every prefix of every document is an input (this gives every
+// look-ahead cut off by EOF).
+var c39RawElems = []string{"script", "title", "textarea", "style", "xmp", "iframe", "noembed", "noframes", "noscript", "plaintext"}
+
+var c39ScriptBodies = []string{
+	"", "x<y", "<!", "<!-x", "<!--", "<!--x-y", "<!--x--y", "<!---->", "<!--<", "<!--<x", "<!--<scr", "<!--<scrx", "<!--<scriptx",
+	"<!--<script>", "<!--<SCRIPT y", "<!--<script/>-y", "<!--<script>--y", "<!--<script>-->", "<!--<script><y",
+	"<!--<script></script>", "<!--<script>y</script >-", "<!--<script>y</script/><script>",
+}
+var c39PlainBodies = []string{"", "x<y", "<!--"}
+
+var c39MarkupDocs = []string{
+	"text only", "a<b", "a< b", "a<1>t", "x&amp;y&#65;&lt", "a\r\nb\rc\x00d",
+	"<!--x-->t", "<!---->t", "<!-->t", "<!--->t", "<!--a--!>t", "<!--a--!-b-->t", "<!--a-b--c--->t", "<!--a--!x-->t", "<!--a--",
+	"<![CDATA[x]]>t", "<![CDATA[]]]>t", "<![CDATA[a]b]]c]]>t", "<![CDAx>t", "<svg><![CDATA[x]]></svg>",
+	"<!DOCTYPE html>t", "<!doctype  html PUBLIC \"a\" 'b'>t", "<!DOCTYPx>t", "<!DOCTYPE>t", "<!DOCTYPE  ", "<!x>t", "<!>t", "<?x?>t", "</>t", "</ x>t", "</1>t",
+	"<a>t", "</a >t", "<br/>t", "<a/b/>t", "<a b=c d='e' f=\"g\" h/>t", "<a b = c>t", "<a b='>' c=\">\">t", "<a\tb\n=\r'x'>t",
+	"<a href=\"&amp;\">t", "<a b=>t", "<a =b>t", "<a b='c'd>t", "<a b=c/>t", "<A B=C\x00>t",
+	"<p>x</p><i>y</i>", "<textarea>\n<b>&amp;</textarea >x", "<title>a</titlex></title>t",
+}
+
+// c39StateInputs returns the distinct (input, ctx) pairs of the family,
+// shortest first.
+func c39StateInputs(thorough bool) []c39Case {
+	type key struct{ in, ctx string }
+	seen := map[key]bool{}
+	var out []c39Case
+	add := func(doc, ctx string) {
+		for i := 0; i <= len(doc); i++ {
+			k := key{doc[:i], ctx}
+			if !seen[k] {
+				seen[k] = true
+				out = append(out, c39Case{In: k.in, Ctx: ctx})
+			}
+		}
+	}
+	for _, d := range c39MarkupDocs {
+		add(d, "")
+	}
+	for _, e := range c39RawElems {
+		up := strings.ToUpper(e)
+		cands := []string{"<", "<x", "</", "</" + e + ">", "</" + up + " >", "</" + e + "/>", "</" + e + "x", "</" + up + "\n"}
+		cuts := []int{0, 1, len(e) / 2, len(e) - 1}
+		if thorough {
+			cuts = cuts[:0]
+			for i := 0; i < len(e); i++ {
+				cuts = append(cuts, i)
+			}
+		}
+		for _, i := range cuts {
+			cands = append(cands, "</"+e[:i]+"x", "</"+up[:i]+"-")
+		}
+		bodies := c39PlainBodies
+		if e == "script" {
+			bodies = c39ScriptBodies
+		}
+		tails := []string{"", "AA</" + e + ">t"}
+		type oc struct{ opener, ctx string }
+		openers := []oc{{"<" + e + ">", ""}}
+		if e == "title" || e == "textarea" {
+			openers = append(openers, oc{"", e})
+		}
+		if e == "script" {
+			openers = append(openers, oc{"<script a='b'>", ""}, oc{"x<SCRIPT>", ""})
+		}
+		for _, o := range openers {
+			for _, b := range bodies {
+				for _, cd := range cands {
+					for _, tl := range tails {
+						add(o.opener+b+cd+tl, o.ctx)
+					}
+				}
+			}
+		}
+	}
+	sort.SliceStable(out, func(i, j int) bool { return len(out[i].In) < len(out[j].In) })
+	return out
 }
 
 func c39Join(alpha []string, idx []int) []byte {
@@ -457,9 +560,13 @@ func c39CheckInput(w *vx.W, in []byte, ctxs []string, full, chunk7 bool) {
 	}
 }
 
-func c39CheckMaxBuf(w *vx.W, in []byte, n int) {
-	ref := c39Tokenize(in, c39Variant{})
-	if c39CheckLossless(w, in, c39Variant{}, ref); w.Failed() {
+func c39CheckMaxBuf(w *vx.W, in []byte, n int) { c39CheckMaxBufCtx(w, in, n, "", false) }
+
+// c39CheckMaxBufCtx applies the SetMaxBuf clause to one (input, n) under the
+// fragment context ctx and AllowCDATA(cdata).
+func c39CheckMaxBufCtx(w *vx.W, in []byte, n int, ctx string, cdata bool) {
+	ref := c39Tokenize(in, c39Variant{ctx: ctx, cdata: cdata})
+	if c39CheckLossless(w, in, c39Variant{ctx: ctx, cdata: cdata}, ref); w.Failed() {
 		return
 	}
 	longest := 0
@@ -469,11 +576,14 @@ func c39CheckMaxBuf(w *vx.W, in []byte, n int) {
 	longest = max(longest, len(ref.errRaw))
 	exceeded := false
 	for _, v := range []c39Variant{
-		{maxBuf: n},
-		{maxBuf: n, chunk: 1, callToken: true, smallBuf: true},
-		{maxBuf: n, eofData: true, smallBuf: true},
+		{ctx: ctx, cdata: cdata, maxBuf: n},
+		{ctx: ctx, cdata: cdata, maxBuf: n, chunk: 1, callToken: true, smallBuf: true},
+		{ctx: ctx, cdata: cdata, maxBuf: n, eofData: true, smallBuf: true},
 	} {
 		cfg := fmt.Sprintf("SetMaxBuf(%d) %s", n, v.class())
+		if ctx != "" || cdata {
+			cfg += fmt.Sprintf(" ctx=%q cdata=%v", ctx, cdata)
+		}
 		show := in
 		if len(show) > 200 {
 			show = append(append([]byte{}, in[:200]...), "…"...)
@@ -537,8 +647,8 @@ func TestVerif_C39(t *testing.T) {
 		depth := vx.Pick(c, 4, 5)
 		c.Rule(fmt.Sprintf("soup: every concatenation of <= %d fragments of %q. Inputs of <= 3 fragments are tokenized with NewTokenizerFragment contexts {\"\", script, title, textarea, plaintext} x AllowCDATA off/on (on only if the input contains \"<!\") x readers {all-at-once, all-at-once with EOF alongside data + Token() twice per token, 1 byte per Read + Token(), 3 bytes per Read, 7 bytes per Read + Token()}; longer inputs with context \"\" x AllowCDATA off/on x readers {all-at-once, all-at-once into a white-box 4-byte initial buffer + Token()}. "+
 			"attrs: opener in %q + every sequence of <= %d fragments of %q + tail in %q (reaches quoted/unquoted attribute values), context \"\", same reader rule plus 7 bytes per Read + Token() for every input. Token() data/attributes must agree between all Token()-calling variants. "+
-			"maxbuf: every soup input of <= %d fragments and every attrs input of <= 3 fragments with SetMaxBuf(n), n in {1,2,3,4,7,16}, readers {all, 1 byte + Token() + 4-byte initial buffer, EOF alongside data + 4-byte initial buffer}; maxbuf-long: <= %d soup fragments with a 9000/20000-byte filler (x…, spaces, '-', \"<a \" repeated) inserted at every position, n in {16, 5000}. non-trivial = at least one non-text token or a dropped tail (soup/attrs), ErrBufferExceeded reached (maxbuf)",
-			depth, c39Alphabet, c39AttrOpeners, vx.Pick(c, 4, 5), c39AttrAlphabet, c39AttrTails, vx.Pick(c, 3, 4), vx.Pick(c, 1, 2)))
+			"maxbuf: every soup input of <= %d fragments and every attrs input of <= 3 fragments with SetMaxBuf(n), n in {1,2,3,4,7,16}, readers {all, 1 byte + Token() + 4-byte initial buffer, EOF alongside data + 4-byte initial buffer}; maxbuf-long: <= %d soup fragments with a 9000/20000-byte filler (x…, spaces, '-', \"<a \" repeated) inserted at every position, n in {16, 5000}; maxbuf-states: every prefix of every document of the look-ahead family — raw-text documents opener + body + end-tag candidate + tail with opener <E> for E in %q (also fragment contexts title/textarea with no opener, and <script a='b'>, x<SCRIPT>), body in %q for script and %q otherwise, end-tag candidate in {<, <x, </, </E>, </E' >, </E/>, </Ex, </E'\\n, </ + prefix of E (lengths %s) + wrong byte}, tail in {\"\", AA</E>t}; and the markup documents %q (comments, CDATA with AllowCDATA off and on, DOCTYPE, bogus comments, tags, attribute values) — with SetMaxBuf(n) for EVERY n in 1..len(input)+1, same three readers. non-trivial = at least one non-text token or a dropped tail (soup/attrs), ErrBufferExceeded reached (maxbuf)",
+			depth, c39Alphabet, c39AttrOpeners, vx.Pick(c, 4, 5), c39AttrAlphabet, c39AttrTails, vx.Pick(c, 3, 4), vx.Pick(c, 1, 2), c39RawElems, c39ScriptBodies, c39PlainBodies, vx.Pick(c, "0, 1, len/2, len-1", "all"), c39MarkupDocs))
 		c.Assume("inputs outside the enumerated fragment languages are not executed; non-termination inside a single Next call is caught only by the shard timeout (a livelock that keeps returning tokens is caught by the token-count bound); readers that fail with errors other than io.EOF are not modelled")
 		c.Assume("'unterminated tag' is decided by an independent transcription of the WHATWG tag-name/attribute states; the clause 'Raw of all tokens + ErrorToken Raw + Buffered + unread == input' is the package's own documented passthrough guarantee (Tokenizer.Raw doc comment)")
 
@@ -551,6 +661,26 @@ func TestVerif_C39(t *testing.T) {
 			vx.Strings(soupIdx, 0, 3, func(s []int) bool { return yield(c39Case{Idx: s}) })
 		}, func(w *vx.W, x c39Case) {
 			c39CheckInput(w, c39Join(c39Alphabet, x.Idx), allCtx, true, false)
+		})
+
+		stateInputs := c39StateInputs(!c.Quick())
+		vx.Enumerate(c, "maxbuf-states", vx.Opts{}, func(yield func(c39Case) bool) {
+			for _, x := range stateInputs {
+				for _, cdata := range []bool{false, true} {
+					if cdata && !strings.Contains(x.In, "<![") {
+						continue // AllowCDATA is only consulted after "<!["
+					}
+					x.CDATA = cdata
+					for n := 1; n <= len(x.In)+1; n++ {
+						x.MaxBuf = n
+						if !yield(x) {
+							return
+						}
+					}
+				}
+			}
+		}, func(w *vx.W, x c39Case) {
+			c39CheckMaxBufCtx(w, []byte(x.In), x.MaxBuf, x.Ctx, x.CDATA)
 		})
 
 		attrIn := func(x c39Case) []byte {
